@@ -1286,6 +1286,18 @@ pub fn run(thorough: bool) -> Outcome {
         sizes.push(json!({"family": f.name, "inputs": f.len, "wall_s": t.elapsed().as_secs_f64()}));
         total = total.merge(r);
     }
+    // the environment's other input: the wall clock between two timestamped segments (steps backwards, jumps)
+    let t = Instant::now();
+    let mut r = Report::new();
+    for sc in crate::props::c19::clock_step_scenarios() {
+        r.exec(sc.segs.len() as u64);
+        if let Err(p) = crate::props::c19::run_impl(&sc) {
+            r.dev(format!("C01/clock-steps/panic/{}", panic_key(&p)), "panic", || json!({"kind": "clock-steps", "scenario": sc, "detail": p}));
+        }
+    }
+    huginn_net_tcp::uptime::verif_clock::clear_local();
+    sizes.push(json!({"family": "clock-steps", "inputs": r.evaluations, "wall_s": t.elapsed().as_secs_f64()}));
+    total = total.merge(r);
     let t = Instant::now();
     let r = run_db(thorough);
     sizes.push(json!({"family": "database-text", "inputs": r.evaluations, "wall_s": t.elapsed().as_secs_f64()}));
@@ -1293,7 +1305,7 @@ pub fn run(thorough: bool) -> Outcome {
     huginn_net_tcp::uptime::verif_clock::clear_global();
     Outcome {
         report: total,
-        rule: "every input of every family (frames: TCP option space, option pairs, IP header grid, link-layer grid, every truncation / bit flip / header-byte and payload-byte rewrite of every frame of 17 connections and of the 4 repository captures in the context of its connection; streams: all short byte strings, TLS record header grid, every record length, HTTP/2 frame header grid, HPACK blocks, mutations of valid records / frame sequences / heads; database: every line with deletions, insertions, replacements, numeric overflows, truncations) is fed to the sequential TCP, HTTP, TLS and unified analyzers, the pre-parse filters and dispatch hashes (stream inputs: ClientHello reader, HTTP/2 extractor, one-shot Akamai extractor, request and response parsers; text: database loader); no panic (overflow checks on), no call above 2 s, watchdog for non-termination; after EVERY input a 17-frame probe on the same long-lived instance equals the fresh-instance probe; every slice also through a real 1-worker pool of each kind followed by the probe; distinct = slices x timing bands / loader outcomes".into(),
+        rule: "every input of every family (frames: TCP option space, option pairs, IP header grid, link-layer grid, every truncation / bit flip / header-byte and payload-byte rewrite of every frame of 17 connections and of the 4 repository captures in the context of its connection; streams: all short byte strings, TLS record header grid, every record length, HTTP/2 frame header grid, HPACK blocks, mutations of valid records / frame sequences / heads; clock: timestamped segments of one endpoint with the wall clock stepping backwards / jumping between them; database: every line with deletions, insertions, replacements, numeric overflows, truncations) is fed to the sequential TCP, HTTP, TLS and unified analyzers, the pre-parse filters and dispatch hashes (stream inputs: ClientHello reader, HTTP/2 extractor, one-shot Akamai extractor, request and response parsers; text: database loader); no panic (overflow checks on), no call above 2 s, watchdog for non-termination; after EVERY input a 17-frame probe on the same long-lived instance equals the fresh-instance probe; every slice also through a real 1-worker pool of each kind followed by the probe; distinct = slices x timing bands / loader outcomes".into(),
         exhaustive: true,
         bounds: json!({"families": sizes, "header_byte_values": if thorough { 256 } else { QUICK_VALUES.len() }, "slice_inputs": 4096}),
     }
@@ -1302,7 +1314,17 @@ pub fn run(thorough: bool) -> Outcome {
 pub fn replay(ex: &Value) -> Report {
     let mut r = Report::new();
     set_clock(T0);
-    if let Some(h) = ex.get("history").and_then(|h| h.as_array()) {
+    if ex["kind"].as_str() == Some("clock-steps") {
+        match serde_json::from_value::<crate::props::c19::Scn>(ex["scenario"].clone()) {
+            Ok(sc) => {
+                if let Err(p) = crate::props::c19::run_impl(&sc) {
+                    r.dev(format!("C01/clock-steps/panic/{}", panic_key(&p)), "panic", || json!({"detail": p}));
+                }
+            }
+            Err(_) => r.machinery_error("bad replay file"),
+        }
+        huginn_net_tcp::uptime::verif_clock::clear_local();
+    } else if let Some(h) = ex.get("history").and_then(|h| h.as_array()) {
         let hist: Vec<Vec<Vec<u8>>> = h.iter().map(|t| t.as_array().map(|a| a.iter().map(|f| unhex(f.as_str().unwrap_or(""))).collect()).unwrap_or_default()).collect();
         if let Some(d) = reproduce(&hist) {
             r.dev("C01/replay/probe-differs", "poisoned", || json!({"detail": d}));
